@@ -74,6 +74,20 @@ CLAIMED['C06'] = dict(
          "binary over a matrix of modes/files and comparing exit status and file hashes. Outside: mtimes, stdin/path text agreement, --check on stdin.",
     design='§5 C06')
 
+CLAIMED['C15'] = dict(
+    category='other',
+    text="The part of C15 that is not 'run the formatter': the only state shared between the inputs of one invocation is Session.errors and "
+         "Session.config. Decided on the real MIR: ReportedErrors::add ORs all seven flags; Session::override_config shows the closure the local "
+         "config, restores the session's config and touches no other session field; in bin/main.rs::format with 0..2 (thorough 3) files every input "
+         "is formatted with its own load_config result (or the session config when a --config-path was resolved), never with an earlier file's, the "
+         "error flags an input sees are at least those its predecessor left, the session config is restored after the loop, and the exit status is "
+         ">= every per-input status and 1 only if some flag is set - i.e. the maximum of the single-file statuses. The byte-level clause is outside.",
+    note="Thin kernel, stated as such (level other). Trusted: MIR printer, mirsym, uninterpreted load_config/Session::new/Path probes, frame condition "
+         "that formatting an input does not assign session.config and only raises flags. Replay: real binary over permutations of files with "
+         "different local configs and a parse failure.",
+    design='§5 C15',
+    technique="bounded symbolic execution of the binary's and library's MIR (mirsym) with uninterpreted environment; obligations decided by cvc5/z3; CLI replay")
+
 NA = {
     'C01': "token-sequence equivalence over all programs requires symbolic execution of rustc_parse and ~30 kLoC of AST rewriters; no encodable kernel carries it",
     'C02': "fixed-point of the full formatting pipeline (parser + all rewriters on both sides); not encodable, and idempotence of kernels does not imply it",
